@@ -194,6 +194,7 @@ type StreamFactory interface {
 }
 
 func (p *StreamPool) connections() []*connection {
+	verifBeforePoolLock(&p.mu, false)
 	p.mu.RLock()
 	conns := make([]*connection, 0, len(p.conns))
 	for _, conn := range p.conns {
@@ -493,6 +494,7 @@ func (p *StreamPool) newConnection(k key, s Stream, ts time.Time) (c *connection
 	c, p.free = p.free[index], p.free[:index]
 	// an assembler that looked the object up under its previous key may be
 	// about to lock it: it must see either the old or the new state
+	verifBeforeResetLock(&c.mu)
 	c.mu.Lock()
 	c.reset(k, s, ts)
 	c.mu.Unlock()
@@ -503,6 +505,7 @@ func (p *StreamPool) newConnection(k key, s Stream, ts time.Time) (c *connection
 // does not already exist, returns nil.  This allows us to check for a
 // connection without actually creating one if it doesn't already exist.
 func (p *StreamPool) getConnection(k key, end bool, ts time.Time) *connection {
+	verifBeforePoolLock(&p.mu, false)
 	p.mu.RLock()
 	conn := p.conns[k]
 	p.mu.RUnlock()
@@ -511,6 +514,7 @@ func (p *StreamPool) getConnection(k key, end bool, ts time.Time) *connection {
 	}
 	s := p.factory.New(k[0], k[1])
 	verifYield("getConnection:before-insert")
+	verifBeforePoolLock(&p.mu, true)
 	p.mu.Lock()
 	conn = p.newConnection(k, s, ts)
 	if conn2 := p.conns[k]; conn2 != nil {
@@ -670,6 +674,7 @@ func (a *Assembler) skipFlush(conn *connection) {
 }
 
 func (p *StreamPool) remove(conn *connection) {
+	verifBeforePoolLock(&p.mu, true)
 	p.mu.Lock()
 	delete(p.conns, conn.key)
 	p.free = append(p.free, conn)
